@@ -77,6 +77,16 @@ def run(ctx):
     from .c07 import rule_tracked_dump
     rule_tracked_dump(ctx, r1)
 
+    # an accepted job leaves the tracked table only by being replaced at a new accepted submission: a cancellation the scheduler refuses
+    # (the job is still pending or running) must not forget it, or the next run submits a duplicate
+    from .evalhelpers import eval_cancel
+    from ..symeval import tok as _tok
+    cres, tb_cancel = eval_cancel(ctx)
+    refused = cres.get("refused")
+    r1.check(refused is not None and isinstance(refused[1], dict) and refused[1].get("T") == _tok("ID"), f"{tb_cancel.module.relpath}::{tb_cancel.qual}::refused-keeps-job",
+             "a cancellation the scheduler refuses leaves the job tracked",
+             f"when the scheduler refuses the cancellation of T's job (still pending), TrackingBackend.cancel ends with {refused[0] if refused else None} and the tracked table is "
+             f"{refused[1] if refused else None}: the accepted, still-live job is forgotten and the next run submits a second job for T", tb_cancel.where)
     from .evalhelpers import cached_witness, report_witness, run_command_witness
     report_witness(r1, "src/gwf/plugins/run.py::run::witness-project", "src/gwf/plugins/run.py:1", cached_witness(ctx, "run", run_command_witness),
                    "what was accepted is saved on every exit (rejected k-th submission, failing hash-file write); hashes only for accepted submissions")
